@@ -1,13 +1,16 @@
 //! The finite signal alphabet. Every atom is a deterministic function of
 //! (atom id, bits per sample, length, channel, block index, seed); all values lie inside the width.
 
-pub const N_ATOMS: usize = 30;
+pub const N_ATOMS: usize = 31;
+/// Atoms beyond the universe's alphabet, used by dense sweeps only: 31 = uniform noise of amplitude
+/// `seed`, 32 = 128 silent samples followed by such noise.
+pub const N_ATOMS_EXT: usize = 33;
 
 pub const ATOM_NAMES: [&str; N_ATOMS] = [
     "silence", "dc_max", "dc_min", "dc_one", "alt_maxmin", "alt_minmax", "impulse_first",
     "impulse_mid", "impulse_last", "step", "wrap_ramp", "square64", "sine3.7", "sine100",
     "poly1", "poly2", "poly3", "poly4", "resonator", "noise_lsb", "noise_half", "noise_m2",
-    "noise_full", "heavy_tail", "gated_a", "gated_b", "sine_noise", "square7", "gated16", "gated24",
+    "noise_full", "heavy_tail", "gated_a", "gated_b", "sine_noise", "square7", "gated16", "gated24", "quiet_then_loud",
 ];
 
 /// Minimal LCG (Knuth MMIX constants); a fixed seed makes each noise atom one particular signal.
@@ -135,6 +138,23 @@ pub fn atom(id: usize, bps: u32, n: usize, ch: usize, block: usize, seed: u64) -
                 v.push(if on { clamp(x, bps) } else { (t % 3) as i32 - 1 })
             });
         }
+        30 => {
+            // a quiet first partition followed by almost incompressible noise: a predicted subframe is
+            // near break-even with verbatim and its first Rice parameter differs from all the others
+            (0..n).for_each(|t| {
+                let x = rng.sym(mx - mx / 16);
+                v.push(if t < 128.min(n / 2) { 0 } else { clamp(x, bps) })
+            });
+        }
+        31 | 32 => {
+            // amplitude sweeps (the case's `seed` is the amplitude): near break-even content
+            let amp = (seed as i64).clamp(1, mx);
+            let mut r2 = Lcg::new(0xA11CE ^ ((ch as u64) << 16) ^ (block as u64));
+            (0..n).for_each(|t| {
+                let x = r2.sym(amp);
+                v.push(if id == 32 && t < 128.min(n / 2) { 0 } else { clamp(x, bps) })
+            });
+        }
         _ => panic!("unknown atom {id}"),
     }
     debug_assert_eq!(v.len(), n);
@@ -156,7 +176,7 @@ pub fn block_channels(
 ) -> Vec<Vec<i32>> {
     let mut out: Vec<Vec<i32>> = Vec::with_capacity(channels);
     for c in 0..channels {
-        let a = if rel == 0 || c >= 2 { (atom_id + 5 * c) % N_ATOMS } else { atom_id };
+        let a = if atom_id >= N_ATOMS { atom_id } else if rel == 0 || c >= 2 { (atom_id + 5 * c) % N_ATOMS } else { atom_id };
         out.push(atom(a, bps, n, c, block, seed));
     }
     if channels >= 2 {
